@@ -53,7 +53,7 @@ struct out { long r; _Bool has_err; int code, nat; unsigned char buf[VS_CAP]; PS
 
 static void call(struct fix *f, struct out *o, _Bool blocking, int T, int n, PSocketAddress *addr[2], int which) {
   PError *err = NULL;
-  p_socket_set_blocking(f->S, blocking); p_socket_set_timeout(f->S, T);
+  p_socket_set_blocking(f->S, nd_pbool(blocking)); p_socket_set_timeout(f->S, T);
   o->X = NULL; o->from = NULL;
   for (int k = 0; k < VS_CAP; k++) o->buf[k] = 0;
 #if OP == 1
